@@ -38,7 +38,7 @@ theorem atomicRepeat_sim (G : NodeGrammar) (uni : Uni) (inh : Bool) (X : Node) (
     (b : Nat) (i : Inp) (S : List Sp) (trk : Tracker) (hne : specRepLoop u 0 none b 0 i S ≠ .oof) :
     EvRel (fun n' => parse G uni n' inh (.atomicRepeat X) i ⟨S, trk⟩) (specRepLoop u 0 none b 0 i S) := by
   have hloop := repLoop_sim (fun n' _ i m => parse G uni n' inh X i m) u 0 none hX b atomicBudget
-    atomicBudget_unbounded 0 i S (Tracker.new i) ([] : List Val) hne
+    atomicBudget_unbounded 0 i S (Tracker.new i) ([] : List Val) rfl hne
   cases hs : specRepLoop u 0 none b 0 i S with
   | oof => exact absurd hs hne
   | fail =>
@@ -459,7 +459,7 @@ theorem rep_sim {g : PGrammar} {uni : Uni} {n : Nat} (hS : Sim g uni n) {inh : B
     (fun n' => repUnitP (parse (gen g) uni n' false (gen g).skipped) (parse (gen g) uni n' inh (genExpr g sk e))
       (defaultSkipVal (gen g)) (skipCount sk inh))
     (fun idx i S => if idx = 0 then spec g uni n na e i S else specThen g uni n na e i S)
-    min mx hU n (fun n => n) id_unbounded 0 i S trk ([] : List Val) hne
+    min mx hU n (fun n => n) id_unbounded 0 i S trk ([] : List Val) rfl hne
   cases hs : specRepLoop (fun idx i S => if idx = 0 then spec g uni n na e i S else specThen g uni n na e i S)
       min mx n 0 i S with
   | oof => exact absurd hs hne
